@@ -8,6 +8,7 @@ package props
 
 import (
 	"fmt"
+	"math"
 	"math/big"
 	"testing"
 	"time"
@@ -40,6 +41,9 @@ func genC13(rt *rapid.T) c13Params {
 	p.TokensPerBlock = rapid.OneOf(
 		rapid.SampledFrom([]int64{0, 1, 2, 3, 4, 7, 99, 300, 4_200_000, 1_000_000_000_000}),
 		rapid.Int64Range(0, 400),
+		// emissions of an 18-decimal denomination, up to the largest value the parameter can hold
+		rapid.SampledFrom([]int64{92_233_720_368_547_758, 92_233_720_368_547_759, 115_292_150_460_684_698, 1_000_000_000_000_000_000, 4_200_000_000_000_000_000, 4_699_999_999_999_999_999, math.MaxInt64/2 + 1, math.MaxInt64 - 1, math.MaxInt64}),
+		rapid.Int64Range(1<<56, math.MaxInt64),
 	).Draw(rt, "tokensPerBlock")
 	p.MintDecrease = rapid.OneOf(
 		rapid.SampledFrom([]int64{0, 1, 6, blocksPerYear - 1, blocksPerYear, blocksPerYear + 1, 2 * blocksPerYear, 3*blocksPerYear + 17, 1_000_000_000, 50 * blocksPerYear}),
@@ -174,7 +178,7 @@ func c13Name(addr, fee, dev, stip, mod string) string {
 
 func TestC13(t *testing.T) {
 	rec := ev.For("C13")
-	rec.Describe("fork mode: generated jklmint params (TokensPerBlock, MintDecrease incl. >= blocks-per-year, three ratios summing to <=100, denom, stipend account) then 1-60 consecutive jklmint BeginBlocks with full balance+supply snapshots around each; plus pure GetMintForBlock cases. Non-trivial = the run reached an emission <= 3 (rounding/zero region) ; distinct = distinct parameter tuples.",
+	rec.Describe("fork mode: generated jklmint params (TokensPerBlock from 0 up to the int64 maximum, MintDecrease incl. >= blocks-per-year, three ratios summing to <=100, denom, stipend account) then 1-60 consecutive jklmint BeginBlocks with full balance+supply snapshots around each; plus pure GetMintForBlock cases. Non-trivial = the run reached an emission <= 3 (rounding/zero region) ; distinct = distinct parameter tuples.",
 		"ratios sum to at most 100 and the stipend address is an ordinary valid account distinct from the fee collector and dev-grants accounts (property quantifier)",
 		"mint denom is a syntactically valid denom (ujkl, empty = ujkl, uother)")
 	c := chain.New(chain.GenesisOpts{NumAccounts: 2, Balance: sdk.NewCoins(sdk.NewInt64Coin(chain.Denom, 1_000_000))})
